@@ -41,6 +41,22 @@ check("C15", "exploration",
       "Sim runs exercise generated Go + distsys core, not production resources (the TCP runs do). Service order is compared with the order in which the server committed its receive of each LockMsg. TLC is used only as an evaluator over recorded traces.",
       "runtime monitoring: invariant monitors at commit boundaries of a serialised schedule + offline trace validation by TLC + commit-point/hasLock event log of real TCP runs", "simsched+tlc+tcp")
 
+
+check("C08", "exploration",
+      "The shipped raftkvs archetypes (5 per server, clients, crashers) run one attempt at a time under seeded scheduler policies (uniform, PCT bursts, partition by starvation, crash-the-leader-after-append, election storms) with per-link FIFO delivery and crash-stop of a minority; after every committed step Go monitors evaluate ElectionSafety, LogMatching, LeaderCompleteness, StateMachineSafety, ApplyLogOK, LeaderAppendOnly and their history-strengthened forms; spec-exact traces are additionally checked by TLC (Next membership and the invariants as written in raftkvs.tla). Real clusters built through raftkvs/bootstrap (relaxed mailboxes, LocalShared, FD, timers, optional badger persistence, -race on every second cluster) run with a crash-stop of the leader/minority and are monitored online at every commit point (H1) with the same, order-robust monitors. Held on the runs produced.",
+      "Sim runs do not exercise production resources (cluster runs do). Cluster monitors rely on the commit-point order being a serial order per server (2PL) and on history forms that are insensitive to cross-server interleaving. An election storm on a loaded machine makes a cluster run unproductive for clients but still feeds the monitors. Race reports are listed as observations.",
+      "runtime monitoring: invariant monitors at commit boundaries (serialised schedule; real clusters via commit-point hook) + offline TLC evaluation of recorded traces + race detector", "simsched+tlc+cluster")
+
+check("C09", "exploration",
+      "Client histories (request taken = call, response delivered = return; unique Put values; open operations kept open) from simulated raftkvs runs (logical time, client timeouts/retransmissions, leader crashes, a policy that holds retransmissions back) and from real bootstrap clusters with crash-stop of a minority are checked per key with porcupine. A non-linearizable history is classified structurally: explained by the at-least-once register built from the recorded transmission counts (known finding: no duplicate suppression) or a fresh violation.",
+      "Linearizability is decided on the histories produced only. The at-least-once model lets a retransmitted Put re-apply at any later time, so in runs with many retransmissions stale reads of retransmitted values are attributed to the known finding; runs with few retransmissions keep full power. Porcupine timeouts are inconclusive.",
+      "runtime monitoring: client-boundary history + porcupine linearizability checking against a sequential register model", "simsched+cluster+porcupine")
+
+check("C12", "exploration",
+      "Generated histories (2-5 replicas, 1-4 elements, up to 40 steps of local updates, merges of current/stale/duplicate/own states, gob round-trips through the transport struct) on the real GCounter, AWORSet and LWWSet; oracles on every visited state and on merges of pairs/triples: commutativity, associativity, idempotence, inflation, identity, gob round-trip, convergence of equal knowledge, and Read against op-based reference models. Failures are shrunk and keyed (type, law, cause).",
+      "LWW timestamps are wall-clock: updates are serialised with a strictly advancing clock, a backwards clock step makes the run inconclusive. AWORSet's associativity/convergence/read anomalies are a design limitation recorded as known findings keyed by cause 'design'; the same laws broken by an implementation deviation carry a different key and are reported.",
+      "runtime monitoring: algebraic-law and reference-model oracles over generated CRDT histories", "direct")
+
 PROPS = [json.loads(l)["id"] for l in open(os.path.join(ROOT, "properties.jsonl"))]
 
 def main():
